@@ -275,10 +275,11 @@ fn map_one(e: &E, f: &dyn Fn(&E) -> Option<E>, out: &mut Vec<E>, is_operand: boo
         }
         E::SideAfter(v, eff) => {
             rec(v, &|n| E::SideAfter(b(n), eff.clone()), out, false);
-            rec(eff, &|n| E::SideAfter(v.clone(), b(n)), out, false);
+            // the body of a block is a complete operand of its own
+            rec(eff, &|n| E::SideAfter(v.clone(), b(n)), out, true);
         }
         E::SideBefore(eff, v) => {
-            rec(eff, &|n| E::SideBefore(b(n), v.clone()), out, false);
+            rec(eff, &|n| E::SideBefore(b(n), v.clone()), out, true);
         }
         _ => {}
     }
@@ -311,6 +312,10 @@ pub fn ast_rewrites(e: &E) -> Vec<(&'static str, E)> {
     let mut r5b = vec![];
     map_one(e, &|x| if is_atom(x) { Some(E::SideBefore(b(E::Int(1)), b(x.clone()))) } else { None }, &mut r5b, true);
     out.extend(r5b.into_iter().map(|x| ("R5-side-effect-before-atom", x)));
+    // ... and before an operand that starts with a prefix operator or a bracket
+    let mut r5p = vec![];
+    map_one(e, &|x| if matches!(x, E::Pre(o, _) if *o != PreOp::Reapply) || matches!(x, E::Group(_) | E::Nested(..)) { Some(E::SideBefore(b(E::Int(1)), b(x.clone()))) } else { None }, &mut r5p, true);
+    out.extend(r5p.into_iter().map(|x| ("R5-side-effect-before-operand", x)));
     out
 }
 
@@ -465,7 +470,7 @@ fn first_difference_nl<D: Subject>(e: &E, rule: &str) -> Option<(String, String,
     None
 }
 
-const RULES: [&str; 13] = [
+const RULES: [&str; 14] = [
     "R1-widen-whitespace",
     "R1-remove-whitespace",
     "R1-insert-space",
@@ -478,6 +483,7 @@ const RULES: [&str; 13] = [
     "R5-side-effect-after-atom",
     "R5-side-effect-after-group",
     "R5-side-effect-before-atom",
+    "R5-side-effect-before-operand",
     "pairs",
 ];
 
@@ -616,7 +622,7 @@ impl Property for C18 {
     fn meta(&self, tier: Tier) -> Meta {
         let s = spaces(tier);
         Meta {
-            rule: format!("every program of the C01 corpora T1 ({}), T3 up to {} nodes ({}), T4 reapply loops ({}), T5 call nesting ({}) and T6 block endings ({}) that runs - in its one-line text and, where a line break acts as whitespace, in a multi-line layout (every single space a line break; text rewrites only) -, x every single application at every applicable position of: R1 widen / remove / insert horizontal whitespace at a token boundary (only where the significant token sequence is unchanged and no list is formed or dissolved), R2 trailing whitespace before a newline, spaces on the blank line, extra blank line, leading/trailing whitespace, R3 annotation inside whitespace or at a boundary, comment lines, R4 parentheses around every complete operand, R5 `[1]` after an atom operand, after a parenthesised operator operand, and before an atom operand; plus pairs of text rewrites for programs of <= 3 nodes (T1: <= 5). Oracle: the final value (input (:a = 1, :b = 2)) on both implementations is unchanged and the parse tree is equal modulo trivia (R1-R3), added groups (R4) and side-effect nodes (R5). Non-trivial = program; distinct by enumeration index.", s.t1.len(), s.t3.max, s.t3.len(), s.t4.len(), s.t5.len(), s.t6.len()),
+            rule: format!("every program of the C01 corpora T1 ({}), T3 up to {} nodes ({}), T4 reapply loops ({}), T5 call nesting ({}) and T6 block endings ({}) that runs - in its one-line text and, where a line break acts as whitespace, in a multi-line layout (every single space a line break; text rewrites only) -, x every single application at every applicable position of: R1 widen / remove / insert horizontal whitespace at a token boundary (only where the significant token sequence is unchanged and no list is formed or dissolved), R2 trailing whitespace before a newline, spaces on the blank line, extra blank line, leading/trailing whitespace, R3 annotation inside whitespace or at a boundary, comment lines, R4 parentheses around every complete operand, R5 `[1]` after an atom operand, after a parenthesised operator operand, before an atom operand and before an operand that starts with a prefix operator or a bracket; plus pairs of text rewrites for programs of <= 3 nodes (T1: <= 5). Oracle: the final value (input (:a = 1, :b = 2)) on both implementations is unchanged and the parse tree is equal modulo trivia (R1-R3), added groups (R4) and side-effect nodes (R5). Non-trivial = program; distinct by enumeration index.", s.t1.len(), s.t3.max, s.t3.len(), s.t4.len(), s.t5.len(), s.t6.len()),
             assumptions: vec![
                 "a rewrite is applied only when re-lexing shows the same significant tokens (no tokens merged or split by the edit)".into(),
                 "programs whose original does not run are skipped (nothing to preserve)".into(),
